@@ -403,6 +403,10 @@ let eval_mode () =
            let verdict = oracle false 0 false prefix ops outs in
            print_string (String.concat " || " alts); print_string " ## "; print_string verdict; print_char '\n')
     with
+    | Not_found when (let (k, _, _) = Mlutil.split_case line in k = "stress") ->
+        (* free-running stress: the driver checked the history; the only acceptable observation is "ok" *)
+        let (_, _, outs) = Mlutil.split_case line in
+        Mlutil.print_model ["ok"] (match outs with ["ok"] -> "ok" | ["crash"] -> "fail:process-crashed-or-data-race" | _ -> "fail:stress-history-check")
     | Not_found -> Mlutil.print_model ["UNKNOWN-KIND"] "ok"
     | Failure msg -> Mlutil.print_model ["MODEL-ERROR:" ^ (String.map (fun c -> if c = ' ' then '_' else c) msg)] "ok")
 
